@@ -4,7 +4,7 @@ from vlib import std, lab, common, coq, hbuild, recipes
 
 PID = "C11"
 META = {
-    "text": "Theorems (Properties_C11.v, 13, all closed under the global context) about ReuseModel.v, a branch-for-branch "
+    "text": "Theorems (Properties_C11.v, 15, all closed under the global context) about ReuseModel.v, a branch-for-branch "
             "Gallina transcription of HttpHdrCc::parse (strListGetItem, httpHeaderParseInt/strtol, "
             "httpHeaderParseQuotedString incl. its quirks), clientInterpretRequestHeaders / maybeCacheable / "
             "storeCreateEntry, hdrExpirationTime, timestampsSet, HttpStateData::reusableReply + haveParsedReplyHeaders, "
@@ -20,7 +20,7 @@ META = {
             "the default negative_ttl<=0 -- the hypothesis is necessary: witness theorem with negative_ttl 300 (authenticated "
             "404 + no-cache is a negative hit), confirmed against the running squid by a corpus scenario. Components: "
             "HttpHdrCc::parse never misses a no-store/private element and never invents public/must-revalidate/s-maxage; "
-            "list reading = comma split/trim/non-empty for quote-free text; loop bound sufficiency; hard-wired defaults "
+            "list reading = comma split/trim/non-empty for quote-free text; the list and quoted-string loop bounds of the model are never reached (out-of-fuel results unreachable); hard-wired defaults "
             "re-read from cf.data.pre. Tie: directive/status/method tables, RefreshPattern and squid.conf defaults "
             "regenerated; extracted model diffed (a) end to end against the running squid built from the working tree "
             "(does the second identical request reach the origin, and conditionally?) and (b) at unit level against "
